@@ -21,18 +21,19 @@ def foldKVs {σ : Type} (apply : σ → Bytes → Obj → σ) : Objs → σ → 
 theorem readFields_complete {σ : Type} (p : Path) (h : Bytes → Option (σ → Bytes → Res σ))
     (apply : σ → Bytes → Obj → σ) (ok : Bytes → Obj → Prop)
     (hc : ∀ (k : Bytes) (v : Obj) (s : σ) (b r : Bytes), parse b = some (v, r) → ok k v →
+      (p = .stream → hasExt32 b = false) →
       (match h k with
        | some f => f s b
-       | none => (skip b).bind fun _ b2 => .ok s b2) = .ok (apply s k v) r) :
+       | none => (skipP p b).bind fun _ b2 => .ok s b2) = .ok (apply s k v) r) :
     ∀ (n : Nat) (b : Bytes) (kvs : Objs) (r : Bytes) (s : σ),
-      parseSeq (2*n) b = some (kvs, r) → KVsOK ok kvs →
+      parseSeq (2*n) b = some (kvs, r) → KVsOK ok kvs → (p = .stream → ext32Seq (2*n) b = false) →
       readFields p h n s b = .ok (foldKVs apply kvs s) r
-  | 0, b, kvs, r, s, hp, _ => by
+  | 0, b, kvs, r, s, hp, _, _ => by
     obtain ⟨rfl, rfl⟩ := parseSeq_zero_inv (by simpa using hp)
     simp [readFields, foldKVs]
-  | n+1, b, kvs, r, s, hp, hk => by
+  | n+1, b, kvs, r, s, hp, hk, hxs => by
     have e : 2 * (n + 1) = (2 * n + 1) + 1 := by omega
-    rw [e] at hp
+    rw [e] at hp hxs
     cases kvs with
     | nil => exact absurd (parseSeq_nil_inv hp).1 (by omega)
     | cons x xs =>
@@ -50,19 +51,23 @@ theorem readFields_complete {σ : Type} (p : Path) (h : Bytes → Option (σ →
         unfold readFields
         rw [readMapKey_of_parse_str p hx hne]
         simp only [Res.bind]
-        have hcc := hc k v s b1 b2 hv hval
+        have hxv : p = .stream → hasExt32 b1 = false := fun hp' =>
+          (ext32Seq_cons (ext32Seq_cons (hxs hp') hx).2 hv).1
+        have hx2 : p = .stream → ext32Seq (2 * n) b2 = false := fun hp' =>
+          (ext32Seq_cons (ext32Seq_cons (hxs hp') hx).2 hv).2
+        have hcc := hc k v s b1 b2 hv hval hxv
         cases hh : h k with
         | some f =>
           rw [hh] at hcc; simp only at hcc
           simp only [hcc, foldKVs]
-          exact readFields_complete p h apply ok hc n b2 rest r _ h2 hrest
+          exact readFields_complete p h apply ok hc n b2 rest r _ h2 hrest hx2
         | none =>
           rw [hh] at hcc; simp only at hcc
-          have hskip := skip_of_parse hv
+          have hskip := skipP_of_parse hv hxv
           rw [hskip] at hcc
           simp only [Res.bind, Res.ok.injEq, and_true] at hcc
           simp only [hskip, foldKVs, ← hcc]
-          exact readFields_complete p h apply ok hc n b2 rest r _ h2 hrest
+          exact readFields_complete p h apply ok hc n b2 rest r _ h2 hrest hx2
 
 /-! ### ack -/
 
@@ -73,19 +78,22 @@ def ackApply (a : Ack) (k : Bytes) (v : Obj) : Ack :=
 /-- **ack, any conforming encoding**: a map with string keys whose `ack` entries are strings; further
 entries of any shape; the last `ack` entry counts -/
 theorem Ack.unmarshal_complete (p : Path) (recv : Ack) {b kvs r} (h : parse b = some (.map kvs, r))
-    (hk : KVsOK ackOK kvs) : Ack.unmarshal p recv b = .ok (foldKVs ackApply kvs recv) r := by
+    (hk : KVsOK ackOK kvs) (hx : p = .stream → hasExt32 b = false) :
+    Ack.unmarshal p recv b = .ok (foldKVs ackApply kvs recv) r := by
   obtain ⟨n, r0, hh, hs⟩ := readMapHeader_of_parse h
+  have hhd := readMapHeader_sound hh
   unfold Ack.unmarshal
   rw [hh]; simp only [Res.bind]
   refine readFields_complete p Ack.handlers ackApply ackOK ?_ n r0 kvs r recv hs hk
-  intro k v s b r hp hv
+    (fun hp' => by rw [← hasExt32_map hhd hs]; exact hx hp')
+  intro k v s b r hp hv hxv
   unfold Ack.handlers ackApply
   by_cases h1 : k = kAck
   · obtain ⟨x, rfl⟩ := hv h1
     simp only [h1, if_true]
     rw [readString_of_parse hp]; rfl
   · simp only [h1, if_false]
-    rw [skip_of_parse hp]; rfl
+    rw [skipP_of_parse hp hxv]; rfl
 
 /-! ### HELO options -/
 
@@ -101,12 +109,15 @@ def heloApply (o : HeloOpts) (k : Bytes) (v : Obj) : HeloOpts :=
   else o
 
 theorem HeloOpts.unmarshal_complete (p : Path) (recv : HeloOpts) {b kvs r} (h : parse b = some (.map kvs, r))
-    (hk : KVsOK heloOK kvs) : HeloOpts.unmarshal p recv b = .ok (foldKVs heloApply kvs recv) r := by
+    (hk : KVsOK heloOK kvs) (hx : p = .stream → hasExt32 b = false) :
+    HeloOpts.unmarshal p recv b = .ok (foldKVs heloApply kvs recv) r := by
   obtain ⟨n, r0, hh, hs⟩ := readMapHeader_of_parse h
+  have hhd := readMapHeader_sound hh
   unfold HeloOpts.unmarshal
   rw [hh]; simp only [Res.bind]
   refine readFields_complete p HeloOpts.handlers heloApply heloOK ?_ n r0 kvs r recv hs hk
-  intro k v s b r hp hv
+    (fun hp' => by rw [← hasExt32_map hhd hs]; exact hx hp')
+  intro k v s b r hp hv hxv
   unfold HeloOpts.handlers heloApply
   unfold heloOK at hv
   by_cases h1 : k = kNonce
@@ -124,12 +135,12 @@ theorem HeloOpts.unmarshal_complete (p : Path) (recv : HeloOpts) {b kvs r} (h : 
         obtain ⟨t, rfl⟩ := hv
         rw [readBool_of_parse hp]; rfl
       · simp only [h3, if_false]
-        rw [skip_of_parse hp]; rfl
+        rw [skipP_of_parse hp hxv]; rfl
 
 /-- **HELO, any conforming encoding**: `[type, nil | options map]` -/
 theorem Helo.unmarshal_complete (p : Path) (recv : Helo) {b r : Bytes} {mt : Bytes} {opt : Obj}
     (h : parse b = some (.arr (.cons (.str mt) (.cons opt .nil)), r))
-    (ho : opt = .nil ∨ ∃ kvs, opt = .map kvs ∧ KVsOK heloOK kvs) :
+    (ho : opt = .nil ∨ ∃ kvs, opt = .map kvs ∧ KVsOK heloOK kvs) (hx : p = .stream → hasExt32 b = false) :
     Helo.unmarshal p recv b = .ok (Helo.mk mt
       (match opt with
         | .map kvs => some (foldKVs heloApply kvs (recv.options.getD {}))
@@ -140,6 +151,9 @@ theorem Helo.unmarshal_complete (p : Path) (recv : Helo) {b r : Bytes} {mt : Byt
   obtain ⟨e3, rfl⟩ := parseSeq_nil_inv s2
   have hn : n = 2 := by omega
   subst hn
+  have hx2 : p = .stream → hasExt32 b1 = false := fun hp' => by
+    have h0 : ext32Seq 2 r0 = false := by rw [← hasExt32_arr (readArrayHeader_sound hh) hs]; exact hx hp'
+    exact (ext32Seq_cons (ext32Seq_cons h0 p1).2 p2).1
   unfold Helo.unmarshal
   rw [hh]; simp only [Res.bind]
   rw [if_neg (by decide), readString_of_parse p1]; simp only
@@ -147,7 +161,7 @@ theorem Helo.unmarshal_complete (p : Path) (recv : Helo) {b r : Bytes} {mt : Byt
   · rw [isNil_of_parse_nil p2, if_pos rfl, readNil_of_parse p2]; rfl
   · rw [isNil_false_of_parse p2 (by intro e; cases e)]
     simp only [Bool.false_eq_true, if_false]
-    rw [HeloOpts.unmarshal_complete p _ p2 hk]; rfl
+    rw [HeloOpts.unmarshal_complete p _ p2 hk hx2]; rfl
 
 /-- **PONG, any conforming encoding** -/
 theorem Pong.unmarshal_complete (p : Path) (recv : Pong) {b r : Bytes} {mt reason host dig : Bytes} {ar : Bool}
